@@ -102,6 +102,8 @@ def count(ctx, uniq):
             if op == 'tau':
                 continue
             if op == 'reset':
+                if e['variant'] == 'both':
+                    sit['runs with both answers ready at the same instant'] = sit.get('runs with both answers ready at the same instant', 0) + mult
                 if e['variant'] == 'race':
                     sit['runs with the cancellation racing the winning answer'] = sit.get('runs with the cancellation racing the winning answer', 0) + mult
                 k = 'runs of ' + e['entry']
@@ -195,6 +197,11 @@ def run(ctx):
     rs = [s for s in allscheds if racy(s)]
     rs = [rs[(ctx.seed * 7 + k * max(1, len(rs) // 8)) % len(rs)] for k in range(8)] if quick else rs
     groups.append(('r', rs, 60 if quick else 120, 'race'))
+    # both answers ready at the same instant: schedules (reader style, both members succeed, mode normal) that start with
+    # the two members returning; the fake members meet at a spin barrier just before they return
+    bs = [s for s in allscheds if s['style'] == 'reader' and not isread(s) and s['out'] == ['ok', 'ok'] and s['mode'] == ['normal', 'normal']
+          and set(s['acts'][:2]) == {'rel0', 'rel1'} and 'cancel' not in s['acts']]
+    groups.append(('s', bs[:4] if quick else bs, 100 if quick else 100, 'both'))
     traces = []
     nruns = expect = 0
     for name, group, reps, variants in groups:
